@@ -833,7 +833,91 @@ def cusum_map():
   return r
 
 
-CASES = {'string': case_string, 'longest': case_longest, 'threshold': case_threshold,
+# ---- (i) extended suite ---------------------------------------------------------------------
+
+def case_extended(kind, size, deficiency, step, seed):
+  """LargeBinaryMatrixRank on a size x size matrix of known rank deficiency;
+  LinearComplexityScatter against reference linear complexities."""
+  import math as _m
+  from pmc.refs import lfsr
+  w = world.load()
+  E = w.ext_nist
+  out = []
+  if kind == 'rank':
+    rows = [nt.drbg_int('c12x-%d-%d-%d' % (seed, size, i), size) | (1 << i) for i in range(size)]
+    # make `deficiency` rows dependent on the others
+    base_rank = rn.rank_gf2(rows)
+    for j in range(deficiency):
+      rows[size - 1 - j] = rows[j] ^ rows[j + 1] if j + 1 < size - deficiency else rows[0]
+    rk = rn.rank_gf2(rows)
+    k = size - rk
+    bits = 0
+    for i, r_ in enumerate(rows):
+      bits |= r_ << (i * size)
+    n = size * size + (seed % 7)
+    st, res = guarded(E.LargeBinaryMatrixRank, bits, n)
+    if st == 'exc':
+      return ['LargeBinaryMatrixRank raised %s' % res]
+    d = _named(res)
+    exp = E.ASYMPTOTIC_RANK_SF[k] if k < len(E.ASYMPTOTIC_RANK_SF) else 0
+    nm = '%d * %d' % (size, size)
+    if nm not in d or not _close(d[nm], exp, 1e-12):
+      out.append('LargeBinaryMatrixRank: %dx%d matrix of rank %d -> %r; P(rank <= n-%d) = %r' %
+                 (size, size, rk, d.get(nm), k, exp))
+    smaller = [x for x in d if x != nm]
+    if size == 64 and smaller:
+      out.append('LargeBinaryMatrixRank produced p-values %s for %d bits' % (smaller, n))
+  else:
+    n = size
+    v = nt.drbg_int('c12s-%d-%d-%d' % (seed, size, step), n)
+    if deficiency:
+      # plant a short LFSR in one interleaved stream
+      e = rn.bits_of(v, n)
+      stream = lfsr.lfsr_sequence(0b1001, 1, 4, (n + step - 1) // step)
+      for j in range((n + step - 1 - 0) // step):
+        if j * step < n:
+          e[j * step] = (stream >> j) & 1
+      v = sum(b << i for i, b in enumerate(e))
+    st, got = guarded(E.LinearComplexityScatter, v, n, step)
+    if st == 'exc':
+      return ['LinearComplexityScatter raised %s' % got]
+    q = 0
+    for i in range(step):
+      sz = (n + step - 1 - i) // step
+      seq = sum(((v >> (i + j * step)) & 1) << j for j in range(sz))
+      L = lfsr.lc_textbook(seq, sz)
+      cnt = 1 if L == 0 else (2**(2 * L - 1) if L <= sz // 2 else 4**(sz - L))
+      q += sz - (cnt.bit_length() - 1)
+    exp = float(sum(F(_m.comb(q - 1, j), 2**(q - 1)) for j in range(0, min(step - 1, q - 1) + 1)))
+    if not _close(got, exp, 1e-9):
+      out.append('LinearComplexityScatter(n=%d, step=%d) = %r; definition gives %.12g' %
+                 (n, step, got, exp))
+  return out
+
+
+def extended(seed):
+  r = Result()
+  for size in (64, 128):
+    for deficiency in (0, 1, 2, 3, 5, 12, 40):
+      for b in case_extended('rank', size, deficiency, 0, seed):
+        r.violation(b, {'fn': 'extended', 'args': {'kind': 'rank', 'size': size,
+                                                   'deficiency': deficiency, 'step': 0,
+                                                   'seed': seed}})
+      r.ev('extended/rank', True)
+  for n in (64, 100, 257, 1000):
+    for step in (1, 2, 3, 8, 32):
+      for planted in (0, 1):
+        for b in case_extended('scatter', n, planted, step, seed):
+          r.violation(b, {'fn': 'extended', 'args': {'kind': 'scatter', 'size': n,
+                                                     'deficiency': planted, 'step': step,
+                                                     'seed': seed}})
+        r.ev('extended/scatter', True)
+  r.sample({'extended_suite': 'LargeBinaryMatrixRank on 64/128-row matrices of known rank '
+            'deficiency; LinearComplexityScatter on 4 lengths x 5 step sizes x planted LFSR'})
+  return r
+
+
+CASES = {'extended': case_extended, 'string': case_string, 'longest': case_longest, 'threshold': case_threshold,
          'invariance': case_invariance, 'table': case_table, 'excursions': case_excursions,
          'long': case_long, 'cusum_map': case_cusum_map}
 
@@ -882,6 +966,8 @@ def plan(tier, seed):
   for n in ([128, 256, 1000, 1024, 4096] + ([16384, 65536] if thorough else [])):
     T.append(Task('long-strings', 'longs', {'ns': [n], 'seed': seed}, complete=False,
                   bound='default-parameter tests vs reference on longer strings', weight=n * 3e3))
+  T.append(Task('extended-suite', 'extended', {'seed': seed}, complete=False,
+                bound='structured inputs for the two extended tests', weight=5e6))
   T.append(Task('cusum-pvalue-map', 'cusum_map', {},
                 bound='closed form 2.13.4(4) on n>=100', weight=2e6))
   return T
